@@ -5,7 +5,7 @@ import z3
 
 from pyvc import sym, concretise
 from pyvc.sym import SV, And, Or, Not, Implies
-from pyvc.engine import PyRaise, ExcVal, Obj
+from pyvc.engine import PyRaise, ExcVal, Obj, SymDict
 from pyvc.verify import Contract, Outcome, native_call
 
 
@@ -210,6 +210,100 @@ class LoadsValidates(Contract):
         raise NotImplementedError
 
 
+class LoadFromPath(Contract):
+    """MetadataBase.load(path): the file at `path` is opened for reading and parsed, and deserialize() receives the document parsed by THIS
+    call (so what a caller obtains is what the file holds now, whatever was loaded before and whatever was done to earlier loaded
+    objects); nothing is opened for writing.  deserialize is recorded (its own contracts)."""
+    name = "productmd.common.MetadataBase.load"
+    key = "io:common.MetadataBase.load"
+    STATE_CHECK = True      # deserialize (the specified change of the receiver) is a recorded stub here: load itself keeps no state
+
+    def __init__(self, src, T):
+        self.src, self.T = src, T
+
+    def setup(self, E):
+        o = E.instantiate(("rpms", "Rpms"))
+        path = SV(sym.Val.VStr(z3.Const("arg.path", sym.S)))
+        E.assume(Not(Or(sym.startswith(path, "http://"), sym.startswith(path, "https://"), sym.startswith(path, "ftp://"))))
+        got = []
+
+        def deser(E_, o_, args, kwargs):
+            got.append(args[0])
+            return None
+        E.summaries[(("rpms", "Rpms"), "deserialize")] = deser
+        return {"o": o, "path": path, "mark": len(E.path.effects), "got": got}
+
+    def call(self, E, st):
+        try:
+            return E.call(E.getattr_(st["o"], "load"), [st["path"]])
+        finally:
+            E.summaries.pop((("rpms", "Rpms"), "deserialize"), None)
+
+    def post(self, E, st, out):
+        eff = E.path.effects[st["mark"]:]
+        opens = [e for e in eff if e[0] == "open"]
+        reads = [e for e in eff if e[0] == "read"]
+        if out.kind == "raise":
+            return {"nothing_opened_for_writing": not any(any(m in e[2] for m in "wax+") for e in opens)}
+        return {"nothing_opened_for_writing": not any(any(m in e[2] for m in "wax+") for e in opens),
+                "the_given_path_is_read": len(opens) == 1 and opens[0][1] is st["path"] and len(reads) == 1 and reads[0][1] is opens[0][3],
+                "deserializes_the_document_parsed_by_this_call": len(st["got"]) == 1 and isinstance(st["got"][0], SymDict) and
+                st["got"][0].name == "json_doc"}
+
+    def concretise(self, model, st):
+        return None
+
+    def native_eval(self, inputs):
+        raise NotImplementedError
+
+    def history_search(self, run):
+        """bounded: write a manifest, load it, change the LOADED object (no write), load the same path again: the second object must be
+        what the file holds"""
+        import os
+        import shutil
+        import tempfile
+        from bounded import gen
+        for kind in ("rpms", "modules", "extra_files", "images", "composeinfo"):
+            d = tempfile.mkdtemp(prefix="c03_")
+            try:
+                obj = getattr(gen.G(self.src.mods, 5), kind)()
+                obj = obj[0] if isinstance(obj, tuple) else obj
+                p = os.path.join(d, "m.json")
+                obj.dump(p)
+                text = open(p).read()
+                first = type(obj)()
+                first.load(p)
+                # mutate what the first load handed out (payload containers are what a cache would share)
+                for attr in ("rpms", "modules", "extra_files"):
+                    if isinstance(getattr(first, attr, None), dict):
+                        getattr(first, attr).clear()
+                if kind == "images":
+                    first.images.clear()
+                if kind == "composeinfo":
+                    first.variants.variants.clear()
+                second = type(obj)()
+                second.load(p)
+                if second.dumps() != text:
+                    script = ("import os, tempfile, shutil\nfrom bounded import gen\nfrom pyvc.source import Source\n"
+                              "src = Source(os.environ.get('VERIF_REPO', '/repo')); src.import_native()\n"
+                              "obj = getattr(gen.G(src.mods, 5), %r)(); obj = obj[0] if isinstance(obj, tuple) else obj\n"
+                              "d = tempfile.mkdtemp(); p = os.path.join(d, 'm.json'); obj.dump(p); text = open(p).read()\n"
+                              "first = type(obj)(); first.load(p)\n"
+                              "for a in ('rpms', 'modules', 'extra_files', 'images'):\n"
+                              "    if isinstance(getattr(first, a, None), dict): getattr(first, a).clear()\n"
+                              "second = type(obj)(); second.load(p); out = second.dumps(); shutil.rmtree(d)\n"
+                              "if out != text: REPRODUCED('second load of an unchanged file returns what was done to the first loaded object')\n"
+                              "NOT_REPRODUCED()\n" % kind)
+                    return ("deserializes_the_document_parsed_by_this_call",
+                            "%s manifest written, loaded, the loaded object emptied (file untouched), loaded again: the second object is not what "
+                            "the file holds" % kind, script)
+            except Exception:
+                continue
+            finally:
+                shutil.rmtree(d, ignore_errors=True)
+        return None
+
+
 def ast_clauses(run, src):
     """AST clauses used by the effect-order proof: nobody but TreeInfo overrides dump; no serialize/validate method touches
     the file system (so the abstract summaries above are faithful)."""
@@ -239,4 +333,4 @@ def contracts(src, T):
     return [DumpEffectOrder(src, T, ("common", "MetadataBase"), ("composeinfo", "ComposeInfo")),
             DumpEffectOrder(src, T, ("treeinfo", "TreeInfo"), ("treeinfo", "TreeInfo")),
             DumpEffectOrder(src, T, ("treeinfo", "TreeInfo"), ("treeinfo", "TreeInfo"), main_variant=True),
-            LoadsValidates(src, T)]
+            LoadsValidates(src, T), LoadFromPath(src, T)]
